@@ -69,3 +69,27 @@ def replay_program(payload, extra_ns=None, extra_check=None):
     for cfg, diffs, text in failures:
         out.extend("[%s] %s" % (env.cfg_name(cfg), d) for d in diffs)
     return out
+
+
+def reduce_violation(v, **kw):
+    """statement-level delta debugging of a {"kind":"program"} violation (best effort)"""
+    from . import shrink
+    p = v["payload"]
+    if p.get("kind") != "program" or not p.get("cfg"):
+        return v
+    try:
+        small = shrink.reduce_program(p["src"], p["cfg"], max_rounds=80, sched=p.get("sched", 0),
+                                      seed=p.get("seed", 0),
+                                      check_globals=p.get("check_globals", True),
+                                      check_log=p.get("check_log", True),
+                                      check_stdout=p.get("check_stdout", True), **kw)
+    except BaseException:
+        return v
+    if small != p["src"]:
+        status, failures, _ = check_program(small, [tuple(p["cfg"])], p.get("sched", 0), p.get("seed", 0),
+                                            check_globals=p.get("check_globals", True),
+                                            check_log=p.get("check_log", True),
+                                            check_stdout=p.get("check_stdout", True), **kw)
+        if status == "fail":
+            v = dict(v, payload=dict(p, src=small), diffs=failures[0][1])
+    return v
